@@ -585,6 +585,96 @@ func errCarries(v ssa.Value, errP *ssa.Parameter) bool {
 				}
 			}
 		}
+		// the result of a helper that is handed the error and hands it back whenever it is non-nil
+		// (`err = evaluatePingResult(&r, result, err)`)
+		if call, ok := v.(*ssa.Call); ok {
+			if g := call.Common().StaticCallee(); g != nil && g.Blocks != nil && curWorld != nil && curWorld.inModule(g) && g.Signature.Results().Len() == 1 {
+				for i, a := range call.Common().Args {
+					if i < len(g.Params) && rec(a) && preservesErr(g, g.Params[i]) {
+						return true
+					}
+				}
+			}
+		}
+		return false
+	}
+	return rec(v)
+}
+
+// preservesErr: every return of g hands back its error parameter p (possibly among other values of a phi) unless it is
+// reached only when p is nil.
+func preservesErr(g *ssa.Function, p *ssa.Parameter) bool {
+	ok, n := true, 0
+	allInstrs(g, func(in ssa.Instruction) {
+		r, isR := in.(*ssa.Return)
+		if !isR || in.Parent() != g || len(r.Results) != 1 {
+			return
+		}
+		n++
+		isP := func(v ssa.Value) bool { return v == ssa.Value(p) }
+		res := unwrap(r.Results[0])
+		if res == ssa.Value(p) {
+			return
+		}
+		if phi, isPhi := res.(*ssa.Phi); isPhi {
+			// every value that is not the parameter itself comes in only from where the parameter is nil
+			for i, e := range phi.Edges {
+				if errCarriesLocal(e, p) {
+					continue
+				}
+				if i >= len(phi.Block().Preds) || !(errGuard(phi.Block().Preds[i], true, isP) || errGuardEdge(phi.Block().Preds[i], phi.Block(), p)) {
+					ok = false
+				}
+			}
+			return
+		}
+		if !errGuard(in.Block(), true, isP) {
+			ok = false
+		}
+	})
+	return ok && n > 0
+}
+
+// errGuardEdge: the edge from → to is taken only when p is nil (from ends in the test itself).
+func errGuardEdge(from, to *ssa.BasicBlock, p *ssa.Parameter) bool {
+	if len(from.Instrs) == 0 {
+		return false
+	}
+	ifi, ok := from.Instrs[len(from.Instrs)-1].(*ssa.If)
+	if !ok {
+		return false
+	}
+	for k, s := range from.Succs {
+		if s != to {
+			continue
+		}
+		v, pol := stripNot(ifi.Cond, k == 0)
+		if eq, isCmp := isNilCompare(v, func(x ssa.Value) bool { return x == ssa.Value(p) }); isCmp && eq == pol {
+			return true
+		}
+	}
+	return false
+}
+
+func errCarriesLocal(v ssa.Value, p *ssa.Parameter) bool {
+	seen := map[ssa.Value]bool{}
+	var rec func(v ssa.Value) bool
+	rec = func(v ssa.Value) bool {
+		if seen[v] {
+			return false
+		}
+		seen[v] = true
+		v = unwrap(v)
+		if v == ssa.Value(p) {
+			return true
+		}
+		if phi, ok := v.(*ssa.Phi); ok {
+			for _, e := range phi.Edges {
+				if rec(e) {
+					return true
+				}
+			}
+		}
 		return false
 	}
 	return rec(v)
